@@ -1088,3 +1088,51 @@ pub fn c16_service_level() -> (u64, Vec<Violation>) {
     }
     (offered, problems)
 }
+
+/* ------------------------------------------------------------------------------------ */
+/* C07, service level: the configured incoming limit reaches the routing table            */
+/* ------------------------------------------------------------------------------------ */
+
+/// A real `Discv5` configured with `incoming_bucket_limit(L)`, L ∈ {0, 1, 3, 16}: six peers of one
+/// bucket establish incoming sessions (then two outgoing ones): connected incoming entries of a
+/// bucket never exceed L.
+pub fn c07_service_level() -> (u64, Vec<Violation>) {
+    let mut problems = vec![];
+    let mut reports = 0u64;
+    for limit in [0usize, 1, 3, 16] {
+        let r: Result<u64, Violation> = rt::run(async move {
+            let listen = ListenConfig::Ipv4 { ip: Ipv4Addr::new(10, 0, 0, 61), port: 9000 };
+            let mut node = SNode::start(SNodeSpec { keyno: 61, listen, enr: None }, |b| { b.incoming_bucket_limit(limit); }, false).await;
+            let pool = key_pool(&node.id, 4500, 300);
+            let keys: Vec<u16> = pool.by_distance.get(&256).map(|v| v.iter().take(8).copied().collect()).unwrap_or_default();
+            if keys.len() < 8 {
+                return Err(Violation { clause: "harness".into(), key: "service:too-few-keys".into(), detail: "bucket 256".into(), replay: json!(null) });
+            }
+            let mut n = 0u64;
+            for (j, k) in keys.iter().enumerate() {
+                let enr = record(*k, 1, false, 5);
+                let addr: SocketAddr = enr.udp4_socket().unwrap().into();
+                let dir = if j < 6 { v::ConnectionDirection::Incoming } else { v::ConnectionDirection::Outgoing };
+                node.inject(HandlerOut::Established(enr, addr, dir)).await;
+                n += 1;
+                let entries = node.discv5.table_entries();
+                let mut per_bucket: BTreeMap<u64, usize> = BTreeMap::new();
+                for (id, _, st) in &entries {
+                    if st.is_connected() && st.is_incoming() {
+                        *per_bucket.entry(util::log2_distance(&node.id, id)).or_insert(0) += 1;
+                    }
+                }
+                if let Some((b, c)) = per_bucket.iter().find(|(_, c)| **c > limit) {
+                    return Err(Violation { clause: "connected incoming nodes never exceed the configured per-bucket limit".into(), key: format!("service:incoming-limit:{limit}"), detail: format!("incoming_bucket_limit({limit}): bucket {b} holds {c} connected incoming nodes after {n} session reports"), replay: json!({"engine":"ssim","check":"C07","limit":limit}) });
+                }
+            }
+            let _ = node.drain_handler_in();
+            Ok(n)
+        });
+        match r {
+            Ok(n) => reports += n,
+            Err(v) => problems.push(v),
+        }
+    }
+    (reports, problems)
+}
